@@ -96,6 +96,8 @@ impl Default for Ssse3 {
 impl Ssse3 {
     #[target_feature(enable = "ssse3")]
     unsafe fn mul_ssse3(&self, x: &mut [[u8; 64]], log_m: GfElement) {
+        #[cfg(feature = "verif-hooks")]
+        crate::verif::trace(crate::verif::ISA_SSSE3);
         let lut = &self.mul128[log_m as usize];
 
         for chunk in x.iter_mut() {
@@ -268,6 +270,8 @@ impl Ssse3 {
         truncated_size: usize,
         skew_delta: usize,
     ) {
+        #[cfg(feature = "verif-hooks")]
+        crate::verif::trace(crate::verif::ISA_SSSE3);
         // Drop unsafe privileges
         self.fft_private(data, pos, size, truncated_size, skew_delta);
     }
@@ -420,6 +424,8 @@ impl Ssse3 {
         truncated_size: usize,
         skew_delta: usize,
     ) {
+        #[cfg(feature = "verif-hooks")]
+        crate::verif::trace(crate::verif::ISA_SSSE3);
         // Drop unsafe privileges
         self.ifft_private(data, pos, size, truncated_size, skew_delta);
     }
@@ -482,6 +488,8 @@ impl Ssse3 {
 impl Ssse3 {
     #[target_feature(enable = "ssse3")]
     unsafe fn eval_poly_ssse3(erasures: &mut [GfElement; GF_ORDER], truncated_size: usize) {
+        #[cfg(feature = "verif-hooks")]
+        crate::verif::trace(crate::verif::ISA_SSSE3);
         utils::eval_poly(erasures, truncated_size);
     }
 }
